@@ -93,6 +93,8 @@ def specCheck (prop : String) (op res : List String) : String :=
           "escaped value is not a literal segment or does not decode to the value"
       | none => "fail unparsable result"
     | _, _ => "fail unparsable result"
+  | prop, ["e2e", h] => specE2E prop h res
+  | prop, ["e2e_fresh", h] => specE2E prop h res
   | _, _ => "nospec"
 
 end Vanguard.Driver
